@@ -22,6 +22,21 @@ inductive Val
 inductive PyErr | typeError | nameError | attrError | other | unmodelled
   deriving DecidableEq, Repr
 
+/-- what a Python operator applied to values can raise: `TypeError`, something else (`ZeroDivisionError`, a missing
+table entry = `KeyError`), or the operation is outside the model -/
+inductive OpErr | typeError | other | unmodelled
+  deriving DecidableEq, Repr
+
+def OpErr.toPy : OpErr → PyErr
+  | .typeError => .typeError
+  | .other => .other
+  | .unmodelled => .unmodelled
+
+def liftOp (r : Except OpErr Val) : Except PyErr Val :=
+  match r with
+  | .ok v => .ok v
+  | .error e => .error e.toPy
+
 /-! ## numbers -/
 
 def norm : Int → Nat → Int × Nat
@@ -83,7 +98,7 @@ def pyEq : Val → Val → Option Bool
     | _, _ => some false
 
 /-- the functions of Python's `operator` module used in the tables -/
-def applyBin (fn : String) (a b : Val) : Except PyErr Val :=
+def applyBin (fn : String) (a b : Val) : Except OpErr Val :=
   match num a, num b with
   | some (m1, e1, f1), some (m2, e2, f2) =>
     let r := align m1 e1 m2 e2
@@ -125,7 +140,7 @@ def applyBin (fn : String) (a b : Val) : Except PyErr Val :=
     else if fn = "sub" ∨ fn = "floordiv" ∨ fn = "truediv" ∨ fn = "pow" ∨ fn = "xor" then .error .typeError
     else .error .other
 
-def applyCmp (fn : String) (a b : Val) : Except PyErr Val :=
+def applyCmp (fn : String) (a b : Val) : Except OpErr Val :=
   if fn = "eq" then (match pyEq a b with | some r => .ok (.bool r) | Option.none => .error .unmodelled)
   else if fn = "ne" then (match pyEq a b with | some r => .ok (.bool (!r)) | Option.none => .error .unmodelled)
   else
@@ -152,7 +167,7 @@ def applyCmp (fn : String) (a b : Val) : Except PyErr Val :=
           | _, .obj _ _ => .error .unmodelled
           | _, _ => if fn = "lt" ∨ fn = "gt" ∨ fn = "le" ∨ fn = "ge" then .error .typeError else .error .other
 
-def applyUn (fn : String) (a : Val) : Except PyErr Val :=
+def applyUn (fn : String) (a : Val) : Except OpErr Val :=
   if fn = "neg" then
     match num a with
     | some (m, e, f) => .ok (mkNum f (-m) e)
@@ -160,7 +175,7 @@ def applyUn (fn : String) (a : Val) : Except PyErr Val :=
   else if fn = "not_" then .ok (.bool (!truthy a))
   else .error .other
 
-def applyBool (fn : String) (a b : Val) : Except PyErr Val :=
+def applyBool (fn : String) (a b : Val) : Except OpErr Val :=
   if fn = "and" then .ok (if truthy a then b else a)
   else if fn = "or" then .ok (if truthy a then a else b)
   else .error .other
@@ -179,7 +194,7 @@ def lookup (k : String) : List (String × String) → Option String
   | (a, b) :: r => if a = k then some b else lookup k r
 
 /-- a table lookup that fails is Python's `KeyError` (`other`) -/
-def viaTable (t : List (String × String)) (op : String) (f : String → Except PyErr Val) : Except PyErr Val :=
+def viaTable (t : List (String × String)) (op : String) (f : String → Except OpErr Val) : Except OpErr Val :=
   match lookup op t with
   | some fn => f fn
   | Option.none => .error .other
@@ -239,12 +254,12 @@ structure Res where
   deriving Repr
 
 /-- how an operator error surfaces in MPF: only `TypeError` is mapped to the default -/
-def mapOpErr : PyErr → Out
+def mapOpErr : OpErr → Out
   | .typeError => .default
   | .unmodelled => .unmodelled
   | _ => .crash
 
-def ofExcept (r : Except PyErr Val) : Out :=
+def ofExcept (r : Except OpErr Val) : Out :=
   match r with
   | .ok v => .ok v
   | .error e => mapOpErr e
@@ -377,20 +392,20 @@ def py (lazy : Bool) (env : Env) : Expr → Except PyErr Val
       | Option.none => .error .nameError
   | .unary op e =>
     match py lazy env e with
-    | .ok v => viaTable opTable op (fun fn => applyUn fn v)
+    | .ok v => liftOp (viaTable opTable op (fun fn => applyUn fn v))
     | .error x => .error x
   | .bin op a b =>
     match py lazy env a with
     | .ok va =>
       match py lazy env b with
-      | .ok vb => viaTable opTable op (fun fn => applyBin fn va vb)
+      | .ok vb => liftOp (viaTable opTable op (fun fn => applyBin fn va vb))
       | .error x => .error x
     | .error x => .error x
   | .cmp op a b =>
     match py lazy env a with
     | .ok va =>
       match py lazy env b with
-      | .ok vb => viaTable cmpTable op (fun fn => applyCmp fn va vb)
+      | .ok vb => liftOp (viaTable cmpTable op (fun fn => applyCmp fn va vb))
       | .error x => .error x
     | .error x => .error x
   | .boolop op a b =>
@@ -398,7 +413,7 @@ def py (lazy : Bool) (env : Env) : Expr → Except PyErr Val
     | .ok va =>
       if lazy && ((op = "And" && !truthy va) || (op = "Or" && truthy va)) then .ok va
       else match py lazy env b with
-        | .ok vb => viaTable boolTable op (fun fn => applyBool fn va vb)
+        | .ok vb => liftOp (viaTable boolTable op (fun fn => applyBool fn va vb))
         | .error x => .error x
     | .error x => .error x
   | .ite c a b =>
